@@ -27,6 +27,16 @@ def run(ctx):
             per.setdefault(a["path"], set()).add(a["lang"])
         if any(len(v) >= 1 for v in per.values()) and len(x["announced"]) >= 2:
             nt.add((x["id"].split("#")[0], tuple(sorted((p, len(l)) for p, l in per.items())), len(x["announced"])))
+    # vacuity guard: every document language of the projects must really receive edits (a css rule that never matched went
+    # unnoticed once)
+    langs = {}
+    for x in recs:
+        for a in x["announced"]:
+            langs[a["lang"]] = langs.get(a["lang"], 0) + 1
+    missing = [l for l in ("JavaScript", "TypeScript", "Css", "Html") if not langs.get(l)]
+    if missing:
+        raise vlib.ToolError("C18: no edit was announced in documents of %s - the projects lost their coverage" % missing)
+    ctx.cov["announced_edits_per_document_language"] = langs
     ctx.cov["distinct_nontrivial"] = len(nt)
     ctx.cov["rule"] = ("evaluation = one `-U` invocation on a materialised project (each project twice) with its --json twin; "
                        "non-trivial = at least two announced edits; distinct by (project, documents per file, #edits)")
